@@ -117,6 +117,12 @@ func c09Alphabet(cfg c09Cfg) []c09Op {
 	recSets := []int{0, 2}
 	recT := []int{c09TTemp, c09TConn}
 	adv := []int{1, 2} // 2 m, 15 m
+	if cfg.alphabet == "mini" { // for the deepest 2-peer searches
+		sets = []int{0, 5}
+		setT = []int{c09TZero, c09TTemp, c09TConn}
+		upd = []pr{{c09TConn, c09TTemp}, {c09TTemp, c09TZero}, {c09TTemp, c09TConn}}
+		recT = []int{c09TTemp}
+	}
 	if full {
 		sets = []int{0, 1, 2, 3, 4, 5, 6, 7, 8, 9}
 		addT = []int{c09TNeg, c09TZero, c09TTemp, c09TRC, c09TConn, c09TPerm}
@@ -316,8 +322,9 @@ func c09Apply(in *c09Inst, op c09Op, full bool) error {
 			}
 			cands[s] = m.consume(op.p, op.seq, op.set, c09TTLs[op.ttl], now, cfg.cap, &evicting[s])
 		}
-		// "The in-memory and the datastore-backed books give the same answers"
-		if acc[0] != acc[1] || (errs[0] != nil) != (errs[1] != nil) {
+		// "The in-memory and the datastore-backed books give the same answers" (comparable only while the two books
+		// have not legally diverged on an eviction tie, i.e. while their models agree)
+		if before[0] == before[1] && (acc[0] != acc[1] || (errs[0] != nil) != (errs[1] != nil)) {
 			fail("xstore-consume-answer-differs"+c09GhostSuffix(ghost[0] || ghost[1]), "ConsumePeerRecord: mem=(%v,%v) ds=(%v,%v); stored record per model: mem %s, ds %s",
 				acc[0], errs[0], acc[1], errs[1], c09EnvName(before[0].recCode(op.p)), c09EnvName(before[1].recCode(op.p)))
 		}
@@ -462,6 +469,9 @@ func c09Check(in *c09Inst, s int, op c09Op, class string, before c09Model, evict
 			if p == op.p && (evicting || (in.cfg.cap > 0 && (op.kind == c09Add || op.kind == c09Set) && c09TTLs[op.ttl] > 0 && before.live(p)&^o.addrs[p] != 0)) {
 				// a per-peer cap eviction is involved: the victim must be AN unconnected address with the nearest expiry
 				clause = "-cap-wrong-victim"
+				if o.addrs[p]&want == want {
+					clause = "-cap-not-enforced" // nothing was evicted where the other store / the documented rule evicts
+				}
 			}
 			return seqmc.Violation(name+"-"+class+clause+sfx, "Addrs(p%d)=%s, the statement requires %s%s; model before the operation: %s",
 				p+1, c09SetStr(o.addrs[p]), c09SetStr(want), why, before.key(in.clk.now))
@@ -502,8 +512,12 @@ func c09Check(in *c09Inst, s int, op c09Op, class string, before c09Model, evict
 		if s == 0 {
 			snap, st := in.memSnap()
 			if st.entries != entries || st.peers != peers || st.heap != finite || st.recs > peers {
-				return seqmc.Violation("mem-not-collected-after-gc", "after GC the book stores %d entries for %d peers, heap %d, %d records; live: %d entries (%d finite) for %d peers. state: %s",
-					st.entries, st.peers, st.heap, st.recs, entries, finite, peers, snap)
+				why := ""
+				if st.entries == entries && st.heap < finite {
+					why = " - an entry with a finite expiry is not in the expiry heap, gc() will never collect it"
+				}
+				return seqmc.Violation("mem-not-collected-after-gc", "after GC the book stores %d entries for %d peers, expiry heap %d, %d records; live: %d entries (%d with finite TTL) for %d peers%s. state: %s",
+					st.entries, st.peers, st.heap, st.recs, entries, finite, peers, why, snap)
 			}
 		} else {
 			snap, st := in.dsSnap()
@@ -698,21 +712,24 @@ func c09Spec(t *testing.T, cfg c09Cfg) *seqmc.Spec[*c09Inst, c09Op] {
 	}
 }
 
+// c09Configs: the searches of one tier, cheapest class first; searches are dealt round-robin to the worker
+// processes (VERIF_SHARD), so every process gets one search of each class.
 func c09Configs() []c09Cfg {
+	type cls struct {
+		peers    int
+		alphabet string
+		depth    int
+	}
+	classes := []cls{{1, "full", 2}, {1, "core", 4}}
+	if vrep.Thorough() {
+		classes = []cls{{1, "full", 3}, {2, "core", 3}, {2, "mini", 4}, {1, "core", 6}}
+	}
 	var out []c09Cfg
-	thorough := vrep.Thorough()
-	for _, cap := range []int{0, 2} {
-		for _, cache := range []uint{0, 8} {
-			for _, la := range []bool{false, true} {
-				if thorough {
-					out = append(out,
-						c09Cfg{peers: 1, cap: cap, cache: cache, lookahead: la, alphabet: "full", depth: 3},
-						c09Cfg{peers: 1, cap: cap, cache: cache, lookahead: la, alphabet: "core", depth: 5},
-						c09Cfg{peers: 2, cap: cap, cache: cache, lookahead: la, alphabet: "core", depth: 4})
-				} else {
-					out = append(out,
-						c09Cfg{peers: 1, cap: cap, cache: cache, lookahead: la, alphabet: "full", depth: 2},
-						c09Cfg{peers: 1, cap: cap, cache: cache, lookahead: la, alphabet: "core", depth: 4})
+	for _, c := range classes {
+		for _, cap := range []int{0, 2} {
+			for _, cache := range []uint{0, 8} {
+				for _, la := range []bool{false, true} {
+					out = append(out, c09Cfg{peers: c.peers, cap: cap, cache: cache, lookahead: la, alphabet: c.alphabet, depth: c.depth})
 				}
 			}
 		}
@@ -745,22 +762,28 @@ func TestVerifC09(t *testing.T) {
 			continue
 		}
 		sp := c09Spec(t, cfg)
+		var was [len(c09Outcomes)]int64
+		for i := range c09Outcomes {
+			was[i] = c09Outcomes[i].Load()
+		}
 		st := seqmc.Run(sp)
 		seqmc.Fill(r, sp.Name, st)
+		for i := range c09Outcomes {
+			if c09Outcomes[i].Load() > was[i] {
+				r.Distinct++ // distinct (search, outcome class) pairs actually observed
+			}
+		}
 		depths = append(depths, fmt.Sprintf("%s: alphabet=%d ops, levels completed=%d", cfg.String(), len(c09Alphabet(cfg)), st.DepthDone))
 	}
 	r.Bounds["depth"] = depths
 	if d := c09Dead.Load(); d != nil {
 		r.Cap("harness problem (not a verdict): %s", *d)
 	}
-	n := int64(0)
 	for i, name := range c09OutcomeNames {
 		if c := c09Outcomes[i].Load(); c > 0 {
-			n++
 			r.Outcomes[name] += c
 		}
 	}
-	r.Distinct = n
 	r.Flush()
 }
 
@@ -769,6 +792,9 @@ func c09InBubble(t *testing.T, f func()) { synctest.Test(t, func(*testing.T) { f
 // ---------- replay of one recorded history (check.py --replay) ----------
 
 func c09Replay(t *testing.T, path string) {
+	if si, _ := vrep.Shard(); si != 0 {
+		return // one execution is enough
+	}
 	b, err := os.ReadFile(path)
 	if err != nil {
 		t.Skipf("replay: %v", err)
